@@ -1018,6 +1018,28 @@ def run(ctx, rep):
                 f"`{norm_text(node)[:70]}` hands `{nm}` to another component as a callable (a thread, an executor, a timer): checkpoints can then be written concurrently, two writers share "
                 f"`name.new`, and the replace of the first installs under the checkpoint name a file the second is still writing")
     rep.ok('C18.W', 'writer::runs-in-the-calling-thread', '', {'callable_handovers': len(conc)})
+    # the checkpoint is ONE file, written by the atomic writer: a method that calls the writer (or save_full_state) and ALSO writes run state to another file by its own
+    # means (torch.save, pickle, numpy, an open(…, 'w')) produces a second file that is not covered by the protocol — a crash between the two leaves an old checkpoint that
+    # refers to a truncated side file, or new moments next to old parameters
+    SIDE_WRITERS = {'torch.save', 'pickle.dump', 'np.save', 'numpy.save', 'np.savez', 'numpy.savez', 'shutil.copyfile', 'shutil.copy'}
+    nw = 0
+    for m2 in ctx.prog.modules.values():
+        if '.cli' in m2.name:
+            continue
+        for fn2 in [f for f in ast.walk(m2.tree) if isinstance(f, ast.FunctionDef)]:
+            calls_writer = any(isinstance(c, ast.Call) and (dotted_name(c.func) or '').split('.')[-1] in (WRITER_FN, 'save_full_state') for c in ast.walk(fn2))
+            if not calls_writer or fn2.name == WRITER_FN:
+                continue
+            nw += 1
+            side = [c for c in ast.walk(fn2) if isinstance(c, ast.Call) and ((dotted_name(c.func) or '') in SIDE_WRITERS
+                    or ((dotted_name(c.func) or '') == 'open' and len(c.args) >= 2 and isinstance(c.args[1], ast.Constant) and any(ch in str(c.args[1].value) for ch in 'wax+')))]
+            cl2 = getattr(fn2, '_parent', None)
+            scope2 = f"{cl2.name}.{fn2.name}" if isinstance(cl2, ast.ClassDef) else fn2.name
+            rep.check('C18.W', f"{m2.name}.{scope2}::run-state-goes-through-the-atomic-writer-only", not side, where(m2, side[0] if side else fn2), {'side_writes': [norm_text(c)[:60] for c in side]},
+                      f"{scope2} calls the atomic writer and also writes `{norm_text(side[0])[:60] if side else ''}` itself: that file is written in place, outside the protocol — a crash "
+                      f"while it is written (or between the two writes) leaves a checkpoint whose parts do not belong together, or refers to a truncated file")
+    if nw < 3:
+        rep.incomplete('C18.W', 'side-writers', '', f"only {nw} functions calling the atomic writer found")
     # who may receive the checkpoint path: the atomic writer (directly or through the class's own save_full_state), path queries, string methods, reads.  A component that is
     # handed the path and writes it its own way (a Dumper, a logger, a thread body …) bypasses the protocol decided above
     ALLOWED = {WRITER_FN, 'save_full_state', 'print', 'str', 'len', 'repr', 'format', 'isinstance', 'join', 'exists', 'lexists', 'isfile', 'isdir', 'dirname', 'basename', 'abspath',
